@@ -1865,3 +1865,403 @@ Proof.
     destruct (elems_var _ _ Hv) as [[E1' E2']|[es [es' [E1' [E2' F]]]]]; rewrite E1', E2'; [reflexivity|].
     cbn [obind]. rewrite (read_multiget_kids_var _ _ F). reflexivity.
 Qed.
+
+(* ------------------------------------------------------------------------- *)
+(** * Variants: basic closure properties *)
+
+Fixpoint xtree_ind2 (P : xtree -> Prop)
+    (He : forall n a k, Forall P k -> P (Elem n a k))
+    (Ht : forall s, P (Text s)) (Hc : forall s, P (Comment s)) (t : xtree) : P t :=
+  match t with
+  | Elem n a k =>
+    He n a k ((fix go (l : list xtree) : Forall P l :=
+                 match l with
+                 | [] => Forall_nil P
+                 | x :: r => Forall_cons x (xtree_ind2 P He Ht Hc x) (go r)
+                 end) k)
+  | Text s => Ht s
+  | Comment s => Hc s
+  end.
+
+Lemma var_kids_Forall2 c l l' : Forall2 var l l' -> var_kids c l l'.
+Proof. induction 1; constructor; auto. Qed.
+
+Lemma var_kids_app c l1 l1' l2 l2' :
+  var_kids c l1 l1' -> var_kids c l2 l2' -> var_kids c (l1 ++ l2) (l1' ++ l2').
+Proof.
+  intros H1 H2. induction H1; simpl; auto.
+  - constructor; auto.
+  - constructor; auto.
+  - constructor; auto.
+  - apply VK_split. auto.
+Qed.
+
+Lemma var_refl t : var t t.
+Proof.
+  induction t using xtree_ind2; try constructor.
+  - apply Permutation_refl.
+  - apply var_kids_Forall2. induction H; constructor; auto.
+Qed.
+
+Lemma var_kids_refl c l : var_kids c l l.
+Proof. apply var_kids_Forall2. induction l; constructor; auto using var_refl. Qed.
+
+Lemma Forall2_map2 {A} (f g : A -> xtree) l : (forall x, In x l -> var (f x) (g x)) -> Forall2 var (map f l) (map g l).
+Proof. induction l; simpl; intros H; constructor; auto. Qed.
+
+(* ------------------------------------------------------------------------- *)
+(** * The client: what it sends is a lexical variant of what the reference writes *)
+
+Definition opt_nonempty (s : string) : option string := if str_empty s then None else Some s.
+
+Definition raw_of_tm (t : TextMatch) : x_tm :=
+  mkXT (tm_text t) (if tm_negate t then Some "yes" else None) (opt_nonempty (tm_match t)).
+Definition raw_of_param (p : ParamFilter) : x_param :=
+  mkXP (pa_name p)
+       (if pa_ind p then XParamNotDefined
+        else match pa_tm p with None => XParamDefined | Some t => XParamText (raw_of_tm t) end).
+Definition raw_of_pf (f : PropFilter) : x_pf :=
+  mkXF (pf_name f) (opt_nonempty (pf_test f))
+       (if pf_ind f then XPropNotDefined
+        else XPropMatches (map raw_of_tm (pf_tms f)) (map raw_of_param (pf_params f))).
+Definition raw_of_query (q : Query) : x_query :=
+  mkXQ (client_sel (q_data q)) (opt_nonempty (q_test q)) (map raw_of_pf (q_filters q))
+       (if (0 <? q_limit q)%Z then Some (dec_of_N (Z.to_N (q_limit q))) else None).
+
+(** ** the raw request of an expressible value is conformant and denotes what the value denotes *)
+
+Lemma den_test_val s t : den_test s = Some t -> val_test (opt_nonempty s) = Some t.
+Proof.
+  unfold den_test, opt_nonempty. destruct (str_empty s); [|auto]. intros H; inversion H; reflexivity.
+Qed.
+
+Lemma den_match_val s m : den_match s = Some m -> val_match (opt_nonempty s) = Some m.
+Proof.
+  unfold den_match, opt_nonempty. destruct (str_empty s); [|auto]. intros H; inversion H; reflexivity.
+Qed.
+
+Lemma den_tm_val t t' : den_tm t = Some t' -> val_tm (raw_of_tm t) = Some t'.
+Proof.
+  unfold den_tm, val_tm, raw_of_tm. intros H. apply obind_some in H. destruct H as [m [Hm H]].
+  inversion H; subst. cbn [xt_negate xt_match xt_text].
+  rewrite (den_match_val _ _ Hm). destruct (tm_negate t); reflexivity.
+Qed.
+
+Lemma den_param_val p p' : den_param p = Some p' -> val_param (raw_of_param p) = Some p'.
+Proof.
+  unfold den_param, val_param, raw_of_param. cbn [xp_cond xp_name].
+  destruct (pa_ind p), (pa_tm p) as [t|]; try discriminate; intros H.
+  - inversion H; reflexivity.
+  - apply obind_some in H. destruct H as [t' [Ht H]]. rewrite (den_tm_val _ _ Ht). exact H.
+  - inversion H; reflexivity.
+Qed.
+
+Lemma omapM_compose {A B C} (f : A -> option C) (g : A -> B) (h : B -> option C) l l' :
+  (forall x y, f x = Some y -> h (g x) = Some y) -> omapM f l = Some l' -> omapM h (map g l) = Some l'.
+Proof.
+  intros H. revert l'. induction l as [|x l IH]; simpl; intros l' E; auto.
+  apply obind_some in E. destruct E as [y [Ey E]]. apply obind_some in E. destruct E as [ys [Eys E]].
+  inversion E; subst. rewrite (H _ _ Ey). simpl. rewrite (IH _ Eys). reflexivity.
+Qed.
+
+Lemma den_pf_val f f' : den_pf f = Some f' -> val_pf (raw_of_pf f) = Some f'.
+Proof.
+  unfold den_pf, val_pf, raw_of_pf. cbn [xf_test xf_cond xf_name]. intros H.
+  apply obind_some in H. destruct H as [t [Ht H]]. rewrite (den_test_val _ _ Ht). cbn [obind].
+  destruct (pf_ind f).
+  - destruct (nonempty (pf_tms f) || nonempty (pf_params f)); [discriminate|exact H].
+  - apply obind_some in H. destruct H as [tms [Htms H]]. apply obind_some in H. destruct H as [ps [Hps H]].
+    rewrite (omapM_compose den_tm raw_of_tm val_tm _ _ den_tm_val Htms). cbn [obind].
+    rewrite (omapM_compose den_param raw_of_param val_param _ _ den_param_val Hps). exact H.
+Qed.
+
+Lemma client_sel_ok dr : sel_ok (client_sel dr) = true.
+Proof. reflexivity. Qed.
+
+Lemma den_query_val q r : den_query q = Some r -> val_query (raw_of_query q) = Some r.
+Proof.
+  unfold den_query, val_query, raw_of_query. cbn [xq_sel xq_test xq_filters xq_limit]. intros H.
+  rewrite client_sel_ok. cbn [negb].
+  apply obind_some in H. destruct H as [t [Ht H]]. rewrite (den_test_val _ _ Ht). cbn [obind].
+  apply obind_some in H. destruct H as [fs [Hfs H]].
+  rewrite (omapM_compose den_pf raw_of_pf val_pf _ _ den_pf_val Hfs). cbn [obind].
+  inversion H; subst. unfold den_limit.
+  destruct (0 <? q_limit q)%Z eqn:E; [|reflexivity].
+  unfold val_nresults. rewrite digits_dec_of_N.
+  assert (P : (0 <? Z.to_N (q_limit q))%N = true) by (apply N.ltb_lt; apply Z.ltb_lt in E; lia).
+  rewrite P. reflexivity.
+Qed.
+
+(** ** what the client marshals is a variant of what the reference writes for that raw request *)
+
+Lemma tm_var t : var (write_tm (raw_of_tm t)) (marshal_text_match (encode_text_match t)).
+Proof.
+  destruct t as [text ng mt]. unfold write_tm, raw_of_tm, marshal_text_match, encode_text_match, el.
+  cbn [xt_text xt_negate xt_match wtm_text wtm_collation wtm_negate wtm_match tm_text tm_negate tm_match].
+  apply V_elem.
+  - unfold opt_nonempty, at_omitempty. destruct ng, (str_empty mt); apply Permutation_refl.
+  - apply var_kids_refl.
+Qed.
+
+Lemma ind_elem_eq : el_inh NS_CARD "is-not-defined" [] [] = Elem (C "is-not-defined") [] [].
+Proof. reflexivity. Qed.
+
+Lemma param_var p p' :
+  den_param p = Some p' ->
+  exists w, encode_param_filter p = Ok w /\ var (write_param (raw_of_param p)) (marshal_param_filter w).
+Proof.
+  destruct p as [name ind tm]. unfold den_param, encode_param_filter, raw_of_param, write_param, marshal_param_filter, el.
+  cbn [pa_name pa_ind pa_tm xp_name xp_cond wpa_name wpa_ind wpa_tm].
+  destruct ind, tm as [t|]; try discriminate; intros _; cbn [andb is_some];
+    (eexists; split; [reflexivity|]); cbn [wpa_name wpa_ind wpa_tm flag_kid opt_kid app];
+    apply V_elem; try apply Permutation_refl.
+  - apply var_kids_refl.
+  - change (kind_of (C "param-filter")) with KElems. constructor; [apply tm_var|constructor].
+  - apply var_kids_refl.
+Qed.
+
+Lemma params_var ps : forall ps',
+  omapM den_param ps = Some ps' ->
+  exists ws, mapM encode_param_filter ps = Ok ws /\
+             Forall2 var (map write_param (map raw_of_param ps)) (map marshal_param_filter ws).
+Proof.
+  induction ps as [|p ps IH]; intros ps' H.
+  - exists []. simpl. auto.
+  - cbn [omapM] in H. apply obind_some in H. destruct H as [p' [Hp H]].
+    apply obind_some in H. destruct H as [ps1 [Hps H]].
+    destruct (param_var p p' Hp) as [w [E V]]. destruct (IH ps1 Hps) as [ws [Es F]].
+    exists (w :: ws). cbn [mapM map]. rewrite E. cbn [bind]. rewrite Es. cbn [bind]. split; [reflexivity|].
+    constructor; auto.
+Qed.
+
+Lemma pf_var f f' :
+  den_pf f = Some f' ->
+  exists w, encode_prop_filter f = Ok w /\ var (write_pf (raw_of_pf f)) (marshal_prop_filter w).
+Proof.
+  destruct f as [name test ind tms ps]. unfold den_pf, encode_prop_filter, raw_of_pf, write_pf, marshal_prop_filter, el.
+  cbn [pf_name pf_test pf_ind pf_tms pf_params xf_name xf_test xf_cond].
+  intros H. apply obind_some in H. destruct H as [t [_ H]].
+  assert (PA : Permutation
+                 (real_attrs (plain_attr "name" name :: opt_attr "test" (opt_nonempty test)))
+                 (real_attrs (nsd NS_CARD :: at_always "name" name ++ at_omitempty "test" test))).
+  { unfold opt_nonempty, at_omitempty. destruct (str_empty test); apply Permutation_refl. }
+  destruct ind.
+  - destruct tms, ps; try discriminate. cbn [nonempty orb andb mapM bind map].
+    eexists; split; [reflexivity|]. cbn [wpf_name wpf_test wpf_ind wpf_tms wpf_params flag_kid map app].
+    apply V_elem; [exact PA|]. apply var_kids_refl.
+  - cbn [andb]. apply obind_some in H. destruct H as [tms' [_ H]].
+    apply obind_some in H. destruct H as [ps' [Hps _]].
+    destruct (params_var ps ps' Hps) as [ws [E F]]. rewrite E. cbn [bind].
+    eexists; split; [reflexivity|]. cbn [wpf_name wpf_test wpf_ind wpf_tms wpf_params flag_kid app].
+    apply V_elem; [exact PA|]. change (kind_of (C "prop-filter")) with KElems.
+    apply var_kids_app.
+    + rewrite !map_map. apply var_kids_Forall2, Forall2_map2. intros; apply tm_var.
+    + apply var_kids_Forall2. exact F.
+Qed.
+
+Lemma pfs_var fs : forall fs',
+  omapM den_pf fs = Some fs' ->
+  exists ws, mapM encode_prop_filter fs = Ok ws /\
+             Forall2 var (map write_pf (map raw_of_pf fs)) (map marshal_prop_filter ws).
+Proof.
+  induction fs as [|f fs IH]; intros fs' H.
+  - exists []. simpl. auto.
+  - cbn [omapM] in H. apply obind_some in H. destruct H as [f' [Hf H]].
+    apply obind_some in H. destruct H as [fs1 [Hfs H]].
+    destruct (pf_var f f' Hf) as [w [E V]]. destruct (IH fs1 Hfs) as [ws [Es F]].
+    exists (w :: ws). cbn [mapM map]. rewrite E. cbn [bind]. rewrite Es. cbn [bind]. split; [reflexivity|].
+    constructor; auto.
+Qed.
+
+Lemma sel_var dr : Forall2 var (write_sel (client_sel dr)) [marshal_prop (encode_address_prop_req dr)].
+Proof.
+  unfold client_sel, write_sel, marshal_prop, encode_address_prop_req, el. cbn [map marshal_raw DAV_getlastmodified DAV_getetag].
+  constructor; [|constructor].
+  apply V_elem; [apply Permutation_refl|]. change (kind_of (D "prop")) with KElems.
+  constructor; [|constructor; [|constructor; [|constructor]]].
+  - unfold den_data, write_item, write_data, marshal_address_data, el. destruct (dr_allprop dr).
+    + cbn [wad_props wad_allprop map flag_kid app]. apply V_elem; [apply Permutation_refl|apply var_kids_refl].
+    + cbn [wad_props wad_allprop flag_kid]. rewrite app_nil_r.
+      apply V_elem; [apply Permutation_refl|]. apply var_kids_Forall2, Forall2_map2.
+      intros x _. apply V_elem; [apply Permutation_refl|constructor].
+  - apply V_elem; [apply Permutation_refl|constructor].
+  - apply V_elem; [apply Permutation_refl|constructor].
+Qed.
+
+Lemma text_kid_dec n : text_kid (dec_of_N n) = [Text (dec_of_N n)].
+Proof. unfold text_kid. rewrite dec_of_N_nonempty. reflexivity. Qed.
+
+Theorem client_query_variant q r :
+  den_query q = Some r ->
+  exists w, query_address_book q = Ok w /\ var (write_query (raw_of_query q)) (marshal_query w).
+Proof.
+  intros H. unfold den_query in H. apply obind_some in H. destruct H as [t [_ H]].
+  apply obind_some in H. destruct H as [fs [Hfs _]].
+  destruct (pfs_var _ _ Hfs) as [ws [E F]].
+  unfold query_address_book. rewrite E. cbn [bind]. eexists; split; [reflexivity|].
+  unfold write_query, raw_of_query, marshal_query, el.
+  cbn [xq_sel xq_test xq_filters xq_limit wq_prop wq_allprop wq_propname wq_filter wq_limit].
+  apply V_elem; [apply Permutation_refl|]. change (kind_of (C "addressbook-query")) with KElems.
+  change (opt_kid marshal_prop (Some (encode_address_prop_req (q_data q))) ++
+          flag_kid false (Elem (NS_DAV, "allprop") [nsd NS_DAV] []) ++
+          flag_kid false (Elem (NS_DAV, "propname") [nsd NS_DAV] []) ++
+          [marshal_filter (mkWF (q_test q) ws)] ++
+          opt_kid marshal_limit (if (0 <? q_limit q)%Z then Some (Z.to_N (q_limit q)) else None))%list
+    with ([marshal_prop (encode_address_prop_req (q_data q))] ++ [marshal_filter (mkWF (q_test q) ws)]
+            ++ opt_kid marshal_limit (if (0 <? q_limit q)%Z then Some (Z.to_N (q_limit q)) else None))%list.
+  apply var_kids_app; [apply var_kids_Forall2, sel_var|]. apply var_kids_app.
+  - constructor; [|constructor]. unfold marshal_filter, el. cbn [wf_test wf_props].
+    apply V_elem.
+    + unfold opt_nonempty, at_omitempty. destruct (str_empty (q_test q)); apply Permutation_refl.
+    + apply var_kids_Forall2. exact F.
+  - destruct (0 <? q_limit q)%Z; [|constructor]. cbn [opt_kid].
+    constructor; [|constructor]. unfold write_limit, marshal_limit, el_inh.
+    apply V_elem; [apply Permutation_refl|]. rewrite text_kid_dec. apply var_kids_refl.
+Qed.
+
+(** C09_client_conformant, query half *)
+Theorem client_query_conformant q r :
+  den_query q = Some r ->
+  exists d, client_query_doc q = Ok d /\ rfc_read d = Some (RQuery r).
+Proof.
+  intros H. destruct (client_query_variant q r H) as [w [E V]].
+  unfold client_query_doc. rewrite E. cbn [bind]. eexists; split; [reflexivity|].
+  rewrite (rfc_read_var _ _ V).
+  change (write_query (raw_of_query q)) with (rfc_write_raw (XQuery (raw_of_query q))).
+  apply rfc_read_write_conformant. cbn [validate]. rewrite (den_query_val q r H). reflexivity.
+Qed.
+
+(** ** multiget: the client sends the hrefs before the selector (the RFC's DTD lists
+    them after it; the order of children of different kinds is not significant) *)
+
+Lemma read_multiget_kids_hrefs_then_sel hs x sel :
+  is_sel_name (fst (fst (to3 x))) = true -> read_sel (to3 x) = Some sel ->
+  read_multiget_kids (map to3 (map write_href hs ++ [x])) None = Some (Some sel, hs).
+Proof.
+  intros N R. induction hs as [|h hs IH].
+  - cbn [map app]. rewrite (rmk_sel _ _ sel N R). reflexivity.
+  - cbn [map app]. rewrite read_multiget_kids_cons_href, IH. reflexivity.
+Qed.
+
+Lemma rfc_read_hrefs_first sel x hs :
+  sel_ok sel = true -> write_sel sel = [x] -> nonempty hs = true ->
+  rfc_read (Elem (C "addressbook-multiget") [] (map write_href hs ++ [x])) = Some (RMultiget (mkRM sel hs)).
+Proof.
+  intros Hok E Hne. destruct (read_sel_write sel x Hok E) as [N R].
+  unfold rfc_read.
+  replace (qname_eqb (C "addressbook-multiget") (C "addressbook-query")) with false by reflexivity.
+  replace (qname_eqb (C "addressbook-multiget") (C "addressbook-multiget")) with true by reflexivity.
+  unfold read_multiget. replace (attrs_ok [] []) with true by reflexivity. cbn [negb].
+  assert (Hx : is_elem x = true) by (destruct sel; simpl in E; inversion E; reflexivity).
+  rewrite elems_all.
+  2:{ rewrite forallb_app, forallb_map, forallb_true. cbn [forallb]. rewrite Hx. reflexivity. }
+  cbn [obind]. rewrite (read_multiget_kids_hrefs_then_sel hs x sel N R). cbn [obind fst snd dflt].
+  rewrite Hne. reflexivity.
+Qed.
+
+Lemma href_var h : var (write_href h) (el NS_DAV "href" [] (text_kid h)).
+Proof. unfold write_href, el. apply V_elem; [apply Permutation_refl|apply var_kids_refl]. Qed.
+
+Lemma client_multiget_doc_reads us path mg hs :
+  (match mg_paths mg with [] => [path] | l => l end) = hs ->
+  rfc_read (client_multiget_doc us path mg) = Some (RMultiget (mkRM (client_sel (mg_data mg)) (map us hs))).
+Proof.
+  intros Hhs. unfold client_multiget_doc, multi_get_address_book, marshal_multiget. rewrite Hhs.
+  cbn [wm_hrefs wm_prop wm_allprop wm_propname opt_kid flag_kid]. rewrite !app_nil_r.
+  pose proof (sel_var (mg_data mg)) as SV.
+  remember (write_sel (client_sel (mg_data mg))) as ws eqn:Ews.
+  inversion SV as [|x y l l' Vx Fl]; subst. inversion Fl; subst.
+  assert (V : var (Elem (C "addressbook-multiget") [] (map write_href (map us hs) ++ [x]))
+                  (el NS_CARD "addressbook-multiget" []
+                      (map (fun p => el NS_DAV "href" [] (text_kid (us p))) hs ++
+                       [marshal_prop (encode_address_prop_req (mg_data mg))]))).
+  { unfold el at 1. apply V_elem; [apply Permutation_refl|].
+    change (kind_of (C "addressbook-multiget")) with KElems.
+    apply var_kids_app.
+    - rewrite map_map. apply var_kids_Forall2, Forall2_map2. intros; apply href_var.
+    - constructor; [exact Vx|constructor]. }
+  rewrite (rfc_read_var _ _ V).
+  apply rfc_read_hrefs_first; [reflexivity|congruence|].
+  destruct (mg_paths mg); subst hs; reflexivity.
+Qed.
+
+(** C09_client_conformant, multiget half *)
+Theorem client_multiget_conformant us path mg m :
+  den_multiget us mg = Some m -> rfc_read (client_multiget_doc us path mg) = Some (RMultiget m).
+Proof.
+  unfold den_multiget. intros H. destruct (mg_paths mg) as [|p l] eqn:E; [discriminate|].
+  inversion H; subst m. apply client_multiget_doc_reads. rewrite E. reflexivity.
+Qed.
+
+(** an empty Paths list is sent as a multiget of the collection path itself *)
+Theorem client_multiget_empty_paths us path mg :
+  mg_paths mg = [] ->
+  rfc_read (client_multiget_doc us path mg) = Some (RMultiget (mkRM (client_sel (mg_data mg)) [us path])).
+Proof.
+  intros E. apply (client_multiget_doc_reads us path mg [path]). rewrite E. reflexivity.
+Qed.
+
+(** ** the client's documents carry no colliding namespace declaration *)
+
+Lemma existsb_map_false {A B} (f : B -> bool) (g : A -> B) l :
+  (forall x, f (g x) = false) -> existsb f (map g l) = false.
+Proof. intros H. induction l; simpl; auto. rewrite H, IHl. reflexivity. Qed.
+
+Lemma tm_nc w : collides (marshal_text_match w) = false.
+Proof.
+  destruct w as [text coll ng mt]. unfold marshal_text_match, el, at_omitempty, text_kid.
+  cbn [wtm_text wtm_collation wtm_negate wtm_match].
+  destruct (str_empty coll), ng, (str_empty mt), (str_empty text); reflexivity.
+Qed.
+
+Lemma param_nc w : collides (marshal_param_filter w) = false.
+Proof.
+  destruct w as [name ind tm]. unfold marshal_param_filter, el. cbn [wpa_name wpa_ind wpa_tm].
+  cbn [collides]. replace (attr_collides _ _) with false by reflexivity. cbn [orb].
+  rewrite existsb_app. destruct ind; cbn [flag_kid existsb]; destruct tm; cbn [opt_kid existsb]; rewrite ?tm_nc; reflexivity.
+Qed.
+
+Lemma pf_nc w : collides (marshal_prop_filter w) = false.
+Proof.
+  destruct w as [name test ind tms ps]. unfold marshal_prop_filter, el, at_omitempty.
+  cbn [wpf_name wpf_test wpf_ind wpf_tms wpf_params]. cbn [collides].
+  replace (attr_collides _ _) with false by (destruct (str_empty test); reflexivity). cbn [orb].
+  rewrite !existsb_app, (existsb_map_false collides marshal_text_match tms tm_nc),
+    (existsb_map_false collides marshal_param_filter ps param_nc).
+  destruct ind; reflexivity.
+Qed.
+
+Lemma prop_nc dr : collides (marshal_prop (encode_address_prop_req dr)) = false.
+Proof.
+  unfold marshal_prop, encode_address_prop_req, el. cbn [map marshal_raw DAV_getlastmodified DAV_getetag collides].
+  replace (attr_collides _ _) with false by reflexivity. cbn [orb existsb].
+  replace (collides (Elem (NS_DAV, "getlastmodified") [nsd NS_DAV] [])) with false by reflexivity.
+  replace (collides (Elem (NS_DAV, "getetag") [nsd NS_DAV] [])) with false by reflexivity.
+  rewrite !orb_false_r.
+  unfold marshal_address_data, el. destruct (dr_allprop dr); cbn [wad_props wad_allprop map flag_kid app collides].
+  - reflexivity.
+  - replace (attr_collides _ _) with false by reflexivity. cbn [orb]. rewrite app_nil_r.
+    apply existsb_map_false. intros; reflexivity.
+Qed.
+
+Lemma query_nc q w : query_address_book q = Ok w -> collides (marshal_query w) = false.
+Proof.
+  unfold query_address_book. destruct (mapM encode_prop_filter (q_filters q)) as [pfs| |]; try discriminate.
+  cbn [bind]. intros H; inversion H; subst w; clear H.
+  unfold marshal_query, el. cbn [wq_prop wq_allprop wq_propname wq_filter wq_limit opt_kid flag_kid app collides].
+  replace (attr_collides _ _) with false by reflexivity. cbn [orb existsb].
+  rewrite prop_nc. cbn [orb].
+  unfold marshal_filter, el, at_omitempty. cbn [wf_test wf_props collides].
+  replace (attr_collides (attr_fields (NS_CARD, "filter")) _) with false by (destruct (str_empty (q_test q)); reflexivity).
+  cbn [orb]. rewrite (existsb_map_false collides marshal_prop_filter pfs pf_nc). cbn [orb].
+  destruct (0 <? q_limit q)%Z; reflexivity.
+Qed.
+
+Lemma multiget_nc us path mg : collides (client_multiget_doc us path mg) = false.
+Proof.
+  unfold client_multiget_doc, multi_get_address_book, marshal_multiget, el.
+  cbn [wm_hrefs wm_prop wm_allprop wm_propname opt_kid flag_kid collides].
+  replace (attr_collides _ _) with false by reflexivity. cbn [orb]. rewrite !app_nil_r, existsb_app.
+  cbn [existsb]. rewrite prop_nc. cbn [orb]. rewrite orb_false_r.
+  apply existsb_map_false. intros x. unfold text_kid. destruct (str_empty (us x)); reflexivity.
+Qed.
